@@ -64,6 +64,13 @@ static vf::json gen_case(vf::Choice& ch, int size, const std::string& prop) {
         c["defs2_m1"] = v;
         c["defs2_m1v"] = w;
         c["padding"] = int(ch.draw(2));
+        // leaf classes registered only before the second update (style 2)
+        std::vector<int> late;
+        int nl = ch.draw(4);
+        for (int i = 0; i < nl; ++i) {
+            late.push_back(int(ch.draw(4)));
+        }
+        c["late"] = late;
     }
     return c;
 }
